@@ -1,20 +1,21 @@
 (* C14 (codec half) — property theorems.  Only statements, [exact lemma] and Print Assumptions. *)
-From Coq Require Import ZArith List Sorting.Sorted.
-From FV Require Import Lib.RustInt C14.SbsModel C14.SbsProofs C14.SbsSpec C14.SbsRoundtrip.
+From Coq Require Import ZArith List Bool Sorting.Sorted.
+From FV Require Import Lib.RustInt C14.SbsModel C14.SbsProofs C14.SbsSpec C14.SbsEnc C14.SbsDecInv C14.SbsChain C14.SbsPack C14.SbsRoundtrip C14.SbsClip.
 Import ListNotations.
 Open Scope Z_scope.
 
 (* Decoding arbitrary bytes never panics (and the model's fuel is sufficient): for every byte string
-   of at most 2^27 bytes and every bias / maximum the outcome is Ok or Err(DecodingError). *)
+   of any length and every bias / maximum the outcome is Ok or Err(DecodingError).  (The u32 arithmetic
+   of skip_nodes cannot overflow: lemmas aloop_count / skip_safe.) *)
 Theorem sbs_decode_total : forall data bias maxv,
-  Forall is_byte data -> Z.of_nat (length data) <= 2 ^ 27 ->
+  Forall is_byte data ->
   (exists rs rest, decode data bias maxv = Ok rs rest) \/ decode data bias maxv = Err.
 Proof. exact decode_total. Qed.
 
 (* Within the supported tree heights the decoder agrees with the specification's algorithm:
    same error condition, same unread remainder, same members after bias and maximum. *)
 Theorem sbs_decode_matches_spec : forall data bias maxv,
-  Forall is_byte data -> Z.of_nat (length data) <= 2 ^ 27 -> 0 <= bias -> 0 <= maxv < U32 ->
+  Forall is_byte data -> 0 <= bias -> 0 <= maxv < U32 ->
   match data with
   | h :: _ => Z.shiftr (Z.land h 124) 2 <= max_height (bf_of_bits (Z.land h 3))
   | [] => True
@@ -43,6 +44,61 @@ Theorem sbs_roundtrip_auto : forall S,
                    forall x, in_ranges x rs = zmem x S.
 Proof. exact roundtrip_auto. Qed.
 
+(* The filled-node clause, decoder side.  Whenever the decoder dequeues (start, depth) and the next
+   node of the stream is all zeroes, it inserts exactly the values
+   start + bias .. start + BF^(H-depth+1) - 1 + bias that are <= max (at most one range; nothing when
+   there is none), consumes that node only and goes on with the rest of the queue. *)
+Theorem sbs_decode_filled_clipped : forall bf H bias maxv data s s' start depth q out f,
+  bf_valid bf = true -> 1 <= H <= max_height bf -> 0 <= bias -> 0 <= maxv < U32 ->
+  qwf bf H (start, depth) ->
+  ibs_next bf data s = Some (0, s') ->
+  exists r,
+    dec_loop (S f) bf data H bias maxv s ((start, depth) :: q) out =
+    dec_loop f bf data H bias maxv s' q (r ++ out) /\
+    (length r <= 1)%nat /\
+    forall x, in_ranges x r =
+              (start + bias <=? x) && (x <=? start + bf ^ (H - depth + 1) - 1 + bias) && (x <=? maxv).
+Proof. exact decode_filled_clipped. Qed.
+
+(* End to end: a tree whose root node is all zeroes decodes to [0, BF^H) shifted by bias and cut at
+   max, for every branch factor, supported height, bias and max (BF^H > 2^32 included), and leaves
+   exactly the bytes after the node unread. *)
+Theorem sbs_decode_filled_root : forall bf H bias maxv tail,
+  bf_valid bf = true -> 1 <= H <= max_height bf -> 0 <= bias -> 0 <= maxv < U32 ->
+  let hdr := Z.lor (Z.shiftl (Z.land H 31) 2) (bit_id bf) in
+  let zero := if bf =? 32 then [0; 0; 0; 0] else [0] in
+  exists rs, decode (hdr :: zero ++ tail) bias maxv = Ok rs tail /\
+             forall x, in_ranges x rs = (bias <=? x) && (x <=? bf ^ H - 1 + bias) && (x <=? maxv).
+Proof. exact decode_filled_root. Qed.
+
+(* Round trip under any bias and maximum: decoding the encoding of S with (bias, max) yields exactly
+   { v + bias | v in S, v + bias <= max } and leaves nothing unread. *)
+Theorem sbs_roundtrip_bias_max : forall bf S0 bias maxv, bf_valid bf = true ->
+  StronglySorted Z.lt S0 -> Forall (fun v => 0 <= v < U32) S0 -> 0 <= bias -> 0 <= maxv < U32 ->
+  exists bytes rs, encode_bf bf S0 = Some bytes /\ decode bytes bias maxv = Ok rs [] /\
+                   forall x, in_ranges x rs = zmem (x - bias) S0 && (x <=? maxv).
+Proof. exact roundtrip_bias_max. Qed.
+
+(* The filled-node clause, encoder side: the encoder's node stream (top level first; per level the
+   non-skipped nodes in ascending order) has an all-zero node exactly for the filled nodes, child bits
+   for the others and nothing below a filled node; and a node is filled iff its whole interval
+   consists of members. *)
+Theorem sbs_encode_node_stream : forall bf S0 H, bf_valid bf = true -> vals_ok S0 -> 1 <= H <= max_height bf ->
+  (forall x, In x S0 -> x < bf ^ H) ->
+  exists tree pad,
+    encode_fixed bf S0 H = Some (Z.lor (Z.shiftl (Z.land H 31) 2) (bit_id bf) :: tree) /\
+    all_nodes bf tree = streamk bf S0 (Z.to_nat H) (Z.to_nat H) ++ repeat 0 pad /\
+    forall k', streamk bf S0 (Z.to_nat H) (S k') =
+               flat_map (fun p => if skipL bf S0 (Z.to_nat H) k' p then []
+                                  else if fillL bf S0 k' p then [0] else [bitsL bf S0 k' p])
+                        (Vk bf (S k') S0) ++ streamk bf S0 (Z.to_nat H) k'.
+Proof. exact encode_node_stream. Qed.
+
+Theorem sbs_filled_iff_full : forall bf, bf_valid bf = true -> forall S0, vals_ok S0 -> forall k' p, 0 <= p ->
+  fillL bf S0 k' p = true <->
+  (forall x, p * bf ^ Z.of_nat (S k') <= x < (p + 1) * bf ^ Z.of_nat (S k') -> In x S0).
+Proof. exact filled_iff_full. Qed.
+
 (* Independent cross-check by complete enumeration (all subsets of [0,12), all branch factors and the
    automatic choice); superseded by the two general theorems above, kept as an evaluation of the model. *)
 Theorem sbs_roundtrip_enumerated : forall m bf, 0 <= m < 4096 -> In bf [2; 4; 8; 32] ->
@@ -56,5 +112,10 @@ Print Assumptions sbs_decode_total.
 Print Assumptions sbs_decode_matches_spec.
 Print Assumptions sbs_roundtrip.
 Print Assumptions sbs_roundtrip_auto.
+Print Assumptions sbs_decode_filled_clipped.
+Print Assumptions sbs_decode_filled_root.
+Print Assumptions sbs_roundtrip_bias_max.
+Print Assumptions sbs_encode_node_stream.
+Print Assumptions sbs_filled_iff_full.
 Print Assumptions sbs_roundtrip_enumerated.
 Print Assumptions sbs_roundtrip_auto_enumerated.
